@@ -25,7 +25,7 @@ PID = 'C01'
 SIZES = [0, 1, 3, 4, 5, 7, 8, 9, 12, 15, 16, 17, 24, 25]
 SIZES_R = [0, 1, 4, 7, 8, 9, 16, 17, 25]
 NAMES = ['a', 'sub/b', 'é', 'n\udcff', 'sp ace']   # \udcff = byte 0xFF surrogate-escaped (non-UTF-8 name)
-ARGS = ['files', 'dir', 'dir+file', 'file-twice', 'symlink-arg', 'dir-with-symlink', 'dir-twice', 'subdir+dir']
+ARGS = ['files', 'dir', 'dir+file', 'file-twice', 'symlink-arg', 'dir-with-symlink', 'dir-twice', 'subdir+dir', 'dir-with-dir-symlink']
 CHUNKERS = [(4, 8), (1, 4), (5, 10), (8, 8), (4, 64), (4, 9), (16, 16), (1, 1), (3, 7)]
 CIPHERS = [None, {'name': 'aes_gcm', 'key_bits': 128}, {'name': 'aes_gcm', 'key_bits': 256}, {'name': 'chacha20_poly1305'}]
 HASHES = [{'name': 'blake2b', 'length': 64}, {'name': 'blake2b', 'length': 20}, {'name': 'sha2', 'bits': 256},
@@ -161,6 +161,18 @@ def build(root, tree, args):
         for rel, _ in tree:
             rec(str(fpaths[rel]), rel)
         model[str(src / 'zz-link')] = (b'outside content 123', 1_500_000_000_000_000_002)
+    elif args == 'dir-with-dir-symlink':
+        # one directory reachable under two names inside one walk: a real directory and a symlink to it
+        real = src / 'zz-real-dir'
+        real.mkdir()
+        (real / 'inner').write_bytes(b'inner content 4567')
+        os.utime(real / 'inner', ns=(1_500_000_000_000_000_003, 1_500_000_000_000_000_004))
+        os.symlink(real, src / 'zz-alias')
+        paths = [src]
+        for rel, _ in tree:
+            rec(str(fpaths[rel]), rel)
+        model[str(real / 'inner')] = (b'inner content 4567', 1_500_000_000_000_000_004)
+        model[str(src / 'zz-alias' / 'inner')] = (b'inner content 4567', 1_500_000_000_000_000_004)
     else:
         raise AssertionError(args)
     return paths, model
@@ -309,7 +321,7 @@ def plan(t):
         devs.append({'pre': p})
     for rate in (1, 64, 1000):
         devs.append({'rate': rate})     # bandwidth limit: the data path goes through the limiter and progress wrappers
-    arglists = ARGS if t == 'thorough' else ['dir', 'files', 'file-twice', 'dir-with-symlink']
+    arglists = ARGS if t == 'thorough' else ['dir', 'files', 'file-twice', 'dir-with-symlink', 'dir-with-dir-symlink']
     for d in devs:
         for ti, tree in enumerate(red):
             for a in arglists:
